@@ -248,6 +248,7 @@ func newSubscribeMock(name string, t testing.TB, want ...Filter) func(quit <-cha
 		i := atomic.AddUint64(&wantIndex, 1) - 1
 		if i >= uint64(len(want)) {
 			t.Errorf("unwanted MQTT %s of %q", name, topicFilters)
+			return nil
 		}
 		filter := want[i]
 
